@@ -1,7 +1,29 @@
 ---------------------------- MODULE ClientMetaObs ----------------------------
 (* E08 -- client metadata end to end (EXTRA specification; no listed property is concerned).
-   STATEMENT LEVEL: the clauses of the statement over what can be observed from outside, written from the
-   documentation only:
+   STATEMENT LEVEL: the clauses of the statement over what can be observed from outside.
+
+   statement   (a) for export requests sent over real loopback HTTP (protobuf / JSON) and gRPC to an otlpreceiver with
+               include_metadata = true, the receiver's next consumer finds in client.FromContext(ctx).Metadata, for every
+               key the client sent, exactly the values sent under it (names case-insensitive, repeated values in the order
+               written, an empty value is a value, a value with a comma is one value, values keep their case), nothing for
+               keys nobody sent, Keys() covers the keys sent, Get returns a copy; with include_metadata = false it finds no
+               metadata; client.Info.Addr is set in both cases.  (b) behind a batch processor with metadata_keys: no exported
+               batch mixes requests whose value lists for the configured keys differ; every batch's context carries exactly
+               the configured keys with the values of its group and nothing else; every accepted item is exported exactly
+               once by the time Shutdown returns, nothing afterwards; with metadata_cardinality_limit L > 0 the request that
+               would create the (L+1)-th distinct combination is answered with a failure and never exported, combinations
+               that own a batcher keep being accepted; without metadata_keys everything is accepted and the batches'
+               context carries no metadata.
+   quantifier  scripts = configuration (include_metadata, metadata_keys none / one / two keys in any spelling, limit 0 / 2,
+               send_batch_size / send_batch_max_size) x 1-4 sequential requests (transport, header list over SentNames x
+               Values of ClientMetaTables.tla incl. repeated / empty / comma / other-case values and keys the processor is
+               not configured for, 1-3 items)
+   anchors     client/client.go; config/confighttp (clientInfoHandler, contextWithClient, ServerConfig.IncludeMetadata);
+               config/configgrpc (enhanceWithClientInformation, contextWithClient, ServerConfig.IncludeMetadata);
+               receiver/otlpreceiver; processor/batchprocessor (multiShardBatcher.consume, newShard, Config, README)
+   (the full record, with the reasons for every open point: checks/E08.py)
+
+   Written from the documentation only:
      client/client.go          "Metadata is an immutable map, meant to contain request metadata";  Get: "gets the value
                                of the key from metadata, returning a copy.  The key lookup is case-insensitive";
                                Info.Addr "generally reliable for receivers making use of confighttp.ToServer and
